@@ -117,6 +117,7 @@ theorem buy_ok {cx : DCtx} {c : TokenCfg} {s s' : DState} {r : Req} {res : Res}
                       book := setAsks s.book r.name (newOrderList cx ck.ins.asks fills)
                       positions := AList.set s.positions r.name
                         (boughtPosition cx (AList.get? s.positions r.name) r ck (avgPrice cx fills))
+                      cache := none
                       actions := s.actions ++ [.buy (tradeRec cx r ck fills prem fee)] } := by
   unfold buy at h
   split at h
@@ -160,6 +161,7 @@ theorem sell_ok {cx : DCtx} {c : TokenCfg} {s s' : DState} {r : Req} {res : Res}
                       positions := if (soldPosition cx p ck.amount (avgPrice cx fills)).amount ≤ 0
                                    then AList.erase s.positions r.name
                                    else AList.set s.positions r.name (soldPosition cx p ck.amount (avgPrice cx fills))
+                      cache := none
                       actions := s.actions ++ [.sell (tradeRec cx r ck fills prem fee)] } := by
   unfold sell at h
   split at h
